@@ -103,6 +103,7 @@ class Evaluator:
         self.positive = set(positive)
         self.negative = set(negative)
         self.hooks = hooks  # object with optional lookup(node, env), call(node, env, ev)
+        self.notes = set()
 
     # every eval returns a list of possible values (definite alternatives)
     def eval(self, node, env):
@@ -126,8 +127,8 @@ class Evaluator:
             v = env.get(p)
             if v is not None and is_fin(v) and isinstance(v[1], (int, float)):
                 return (v[1] > 0) - (v[1] < 0)
-            if v is not None and v[0] == "pos":
-                return 1
+            if v is not None and v[0] in ("pos", "neg"):
+                return 1 if v[0] == "pos" else -1
         if isinstance(node, ast.UnaryOp) and isinstance(node.op, ast.USub):
             s = self.sign_of(node.operand, env)
             return None if s is None else -s
@@ -138,8 +139,8 @@ class Evaluator:
             v = vs[0]
             if is_fin(v) and isinstance(v[1], (int, float)) and not isinstance(v[1], bool):
                 return (v[1] > 0) - (v[1] < 0)
-            if v[0] == "pos":
-                return 1
+            if v[0] in ("pos", "neg"):
+                return 1 if v[0] == "pos" else -1
         return None
 
     # -- leaves
@@ -187,6 +188,8 @@ class Evaluator:
                     out.append(big(-v[1]))
                 elif v[0] == "sym":
                     out.append(("sym", v[1], v[2], -v[3], v[4], v[5]))
+                elif v[0] in ("pos", "neg"):
+                    out.append(("neg" if v[0] == "pos" else "pos",) + tuple(v[1:]))
                 else:
                     out.append(TOP)
             elif isinstance(node.op, ast.UAdd):
@@ -221,9 +224,34 @@ class Evaluator:
                 and a[2] != b[2] and not a[5] and not b[5]:
             # p - q : a signed difference whose sign is the letter
             return ("diff", a[1], a[2], a[3])
+        sc = self._scale_arith(op, a, b)
+        if sc is not None:
+            return sc
         if a[0] == "big" or b[0] == "big":
             return self._big_arith(op, a, b)
         return TOP
+
+    @staticmethod
+    def _scale_of(v):
+        """(sign, token) of a value usable as a scale factor, or None"""
+        if v[0] in ("pos", "neg"):
+            return (1 if v[0] == "pos" else -1), (v[1] if len(v) > 1 else "?")
+        if v[0] == "fin" and isinstance(v[1], (int, float)) and not isinstance(v[1], bool) and v[1] != 0:
+            return (1 if v[1] > 0 else -1), ("lit", abs(v[1]))
+        return None
+
+    def _scale_arith(self, op, a, b):
+        if a[0] not in ("pos", "neg") and b[0] not in ("pos", "neg"):
+            return None
+        sa, sb = self._scale_of(a), self._scale_of(b)
+        if sa is None or sb is None:
+            return None
+        if op in (ast.Mult, ast.Div):
+            sg = sa[0] * sb[0]
+            return ("pos" if sg > 0 else "neg", ("mul" if op is ast.Mult else "div", sa[1], sb[1]))
+        if op is ast.Add and sa[0] == sb[0]:
+            return ("pos" if sa[0] > 0 else "neg", ("add", sa[1], sb[1]))
+        return None
 
     def _big_arith(self, op, a, b):
         def sgn(v):
@@ -262,6 +290,12 @@ class Evaluator:
         """sym (op) other  /  other (op) sym  for a factor/offset common to both sides."""
         sg = self.sign_of(other_node, env)
         key = text(other_node)
+        if other_val[0] in ("pos", "neg") and len(other_val) > 1:
+            key = other_val[1]     # identity of the scale value, not its spelling
+        elif other_val[0] == "fin":
+            key = ("lit", other_val[1])
+        elif other_val[0] == "top":
+            return TOP
         _, fam, side, sign, chain, weak = s
         if op in (ast.Mult,) or (op is ast.Div and left):
             if sg is None or sg == 0:
@@ -329,6 +363,12 @@ class Evaluator:
         if is_num(a) and is_num(b):
             r = _cmp_num(a, b)
             return {r} if r else None
+        if a[0] == "sym" and b[0] == "sym" and a[1] == b[1] and a[2] != b[2] and a[4] != b[4]:
+            # the two operands of one coordinate went through different maps (scaled by
+            # different values / one side unscaled): for suitable inputs every order is realisable
+            self.notes.add("the two sides of one comparison are transformed differently (%s vs %s)"
+                           % ([x for x in a[4]], [y for y in b[4]]))
+            return {"<", "=", ">"}
         if a[0] == "sym" and b[0] == "sym" and a[1] == b[1] and a[4] == b[4] and a[3] == b[3]:
             sigma = env.get(("sigma", a[1]))
             if sigma is None:
@@ -354,6 +394,10 @@ class Evaluator:
             return None if r is None else {_FLIPREL[x] for x in r}
         if a[0] == "str" and b[0] == "str":
             return {"="} if a[1] == b[1] else {"<" if a[1] < b[1] else ">"}
+        if a[0] in ("pos", "posdiff") and b[0] == "fin" and isinstance(b[1], (int, float)) and b[1] <= 0:
+            return {">"}
+        if b[0] in ("pos", "posdiff") and a[0] == "fin" and isinstance(a[1], (int, float)) and a[1] <= 0:
+            return {"<"}
         return None
 
     def compare(self, op, a, b, env):
@@ -640,7 +684,8 @@ class Interp:
 
     # ---------------------------------------------------------------- loops
     def loop(self, node, env, ref, taint, word):
-        spec = self.client.loop(node, env) if hasattr(self.client, "loop") else None
+        env = dict(env)
+        spec = self.client.loop(node, env, ref) if hasattr(self.client, "loop") else None
         if spec is None:
             raise Unsupported("loop " + text(node).split("\n")[0])
         kind, items = spec
